@@ -13,6 +13,7 @@ import (
 	"verif/internal/lab"
 	"verif/internal/plugin"
 	"verif/internal/spec"
+	"verif/internal/tstype"
 )
 
 // Smoke builds a lab for the basic sample and performs one call (developer aid).
@@ -112,5 +113,27 @@ func AltCmp(tb *plugin.Toolbox, args []string) int {
 		}
 	}
 	fmt.Printf("altcmp %s: same=%d diff=%d\n", p, same, diff)
+	return 0
+}
+
+// TSParse parses emitted TS files with the tstype reader and reports unparsed declarations.
+func TSParse(files []string) int {
+	bad := 0
+	for _, f := range files {
+		b, err := os.ReadFile(f)
+		if err != nil {
+			fmt.Println(err)
+			continue
+		}
+		m := tstype.Parse(string(b))
+		fmt.Printf("%s: types=%d methods=%d unparsed=%d\n", f, len(m.Types), len(m.Methods), len(m.Unparsed))
+		for _, u := range m.Unparsed {
+			fmt.Println("   UNPARSED", u)
+			bad++
+		}
+	}
+	if bad > 0 {
+		return 1
+	}
 	return 0
 }
